@@ -1,32 +1,176 @@
-import CssVerif.Model.Profiles
+import CssVerif.Lemmas.Profiles
 /-!
 # C14 — the profile registry's verdicts depend on its contents, not its history
+
+Property theorems only (helpers: `Lemmas/Profiles.lean`). Model: `Model/Profiles.lean`, a statement-by-statement
+transcription of class `Profiles` (`cssutils/profiles.py:100-450`), tied to the code by the per-operation
+correspondence of `tools/harness/c14.py`. Regex acceptance is the parameter `accepts`; every theorem holds for all
+of its values, for every base macro table and every fuel (`cfg`).
+
+`Inv cfg r` (T14.1): names listed once; the raw table covers exactly the names; the macro cache `used` is, look-up
+for look-up, the base macros updated with the macros of the registered profiles in registration order; the
+compiled table has the names as keys in registration order and holds the expansion of each raw definition
+under that environment; `knownNames` is derived from the compiled table.
+
+What the code does NOT keep (all four confirmed on the implementation, listed in `known/C14.json`, negations
+proved below at concrete witnesses):
+* `removeProfile(all=True)` leaves `_usedMacros` as it was                 — `removeAll_inv_partial`, `finding_removeAll`
+* `addProfile` of a registered name with macros leaves stale macros behind  — guard of `addProfile_inv`, `finding_replace`
+* `addProfiles` over a non-empty registry does not re-expand the old ones   — `Good (.addMany _) = False`, `finding_addProfiles`
+* an operation whose expansion fails leaves a half-updated registry         — `Expandable` hypotheses, `finding_failed_add`
 -/
 namespace CssVerif.C14
 open CssVerif.Profiles
 
-/-- T14.5 a `removeProfile` that raises `NoSuchProfileException` changes nothing (every registry, no invariant needed) -/
+/-! ## T14.1 the invariant is kept -/
+
+/-- the registry without profiles (what `Profiles.__init__` starts from) satisfies the invariant -/
+theorem inv_empty (cfg : Cfg) : Inv cfg (empty cfg) :=
+  ⟨by simp [empty], by simp [empty, dget], by simp [empty, dget], SameEnv.refl _, rfl, by simp [empty], rfl⟩
+
+/-- `addProfile` under a name that is not registered (any macros: new ones, or ones that shadow token macros,
+general macros or another profile's macros), or of a registered name without macros: no exception, the invariant
+holds afterwards, and the contents are the old ones plus / with the profile — provided the new contents expand.
+
+Full statement (false, see `finding_replace`): the same without `hguard`. -/
+theorem addProfile_inv_partial (cfg : Cfg) (r : Reg) (p : Str) (ps : Dict PVal) (ms : Option (Dict Str))
+    (hinv : Inv cfg r) (hguard : p ∉ r.names ∨ truthy ms = false)
+    (hexp : Expandable cfg (dset r.raw p { props := some ps, macros := storedMacros r.raw p ms }) (addNames r.names p)) :
+    (addProfile cfg r p ps ms).2 = none ∧ Inv cfg (addProfile cfg r p ps ms).1 ∧
+    (addProfile cfg r p ps ms).1.names = addNames r.names p ∧
+    (addProfile cfg r p ps ms).1.raw = dset r.raw p { props := some ps, macros := storedMacros r.raw p ms } ∧
+    (addProfile cfg r p ps ms).1.default = r.default :=
+  addProfile_inv cfg r p ps ms hinv hguard hexp
+
+/-- `removeProfile` of a registered profile: no exception, invariant kept, the profile is gone and nothing else
+changed — provided what is left still expands (nobody leaned on the removed profile's macros). -/
+theorem removeProfile_inv (cfg : Cfg) (r : Reg) (p : Str) (hinv : Inv cfg r) (hp : p ∈ r.names)
+    (hexp : Expandable cfg (derase r.raw p) (r.names.erase p)) :
+    (removeProfile cfg r (some p)).2 = none ∧ Inv cfg (removeProfile cfg r (some p)).1 ∧
+    (removeProfile cfg r (some p)).1.names = r.names.erase p ∧
+    (removeProfile cfg r (some p)).1.raw = derase r.raw p ∧
+    (removeProfile cfg r (some p)).1.default = r.default :=
+  Profiles.removeProfile_inv cfg r p hinv hp hexp
+
+/-- `removeProfile(all=True)`, partial: only when the environment of the contents is the base environment
+(e.g. no registered profile has macros). Full statement (false, see `finding_removeAll`): without `hguard`. -/
+theorem removeAll_inv_partial (cfg : Cfg) (r : Reg) (hinv : Inv cfg r)
+    (hguard : SameEnv (envOf cfg.base r.raw r.names) cfg.base) : Inv cfg (removeAll r) :=
+  Profiles.removeAll_inv_partial cfg r hinv hguard
+
+theorem setDefault_inv (cfg : Cfg) (r : Reg) (d : Option (List Str)) (hinv : Inv cfg r) : Inv cfg (setDefault r d) :=
+  Profiles.setDefault_inv cfg r d hinv
+
+/-- every history that stays in the good region keeps the invariant, and its effect on the contents and on
+`defaultProfiles` is that of the same operations on a plain list of (name, properties, macros) -/
+theorem run_inv (cfg : Cfg) (r : Reg) (ops : List Op) (hinv : Inv cfg r) (hg : GoodRun cfg r ops) :
+    Inv cfg (run cfg r ops) ∧ contents (run cfg r ops) = crun (contents r) ops ∧
+    (run cfg r ops).default = drun r.default ops :=
+  run_good cfg r ops hinv hg
+
+/-- the bound on the expansion loop is no part of any result: a definition that expands with some fuel expands to
+the same text with any larger fuel -/
+theorem fuel_irrelevant (m : Dict Str) (f g : Nat) (v r : Str) (hfg : f ≤ g)
+    (h : expandValue m f v = .ok r) : expandValue m g v = .ok r :=
+  expandValue_fuel_mono m f g v r hfg h
+
+/-- `expand_mono`: a definition that expands is not affected by further macros under new names -/
+theorem expand_mono (a b : Dict Str) (h : ∀ k v, dget a k = some v → dget b k = some v) (f : Nat) (d r : Dict PVal)
+    (hr : expandDict f a d = .ok r) : expandDict f b d = .ok r :=
+  expandDict_mono h f d r hr
+
+/-! ## T14.2 contents determine behaviour -/
+
+/-- two registries that satisfy the invariant and hold the same profiles (same names in the same order, same raw
+definitions, same macros) with the same `defaultProfiles` answer every query alike: `validate`,
+`validateWithProfile` (with or without explicit profiles), `propertiesByProfile`, `profiles`, `knownNames` —
+whatever histories produced them. -/
+theorem contents_determine (cfg : Cfg) (accepts : CVal → Str → Bool) (r₁ r₂ : Reg) (h₁ : Inv cfg r₁) (h₂ : Inv cfg r₂)
+    (hc : contents r₁ = contents r₂) (hd : r₁.default = r₂.default) :
+    r₁.names = r₂.names ∧ r₁.known = r₂.known ∧
+    (∀ n v, validate accepts r₁ n v = validate accepts r₂ n v) ∧
+    (∀ n v ps, validateWithProfile accepts r₁ n v ps = validateWithProfile accepts r₂ n v ps) ∧
+    (∀ ps, propertiesByProfile r₁ ps = propertiesByProfile r₂ ps) := by
+  have ho := obs_eq_of_contents cfg r₁ r₂ h₁ h₂ hc hd
+  have ho' := ho
+  simp only [obs, Obs.mk.injEq] at ho'
+  exact ⟨ho'.1, ho'.2.2.1, fun n v => validate_obs accepts r₁ r₂ ho n v,
+    fun n v ps => validateWithProfile_obs accepts r₁ r₂ ho n v ps, fun ps => propertiesByProfile_obs r₁ r₂ ho ps⟩
+
+/-- adding a profile under a fresh name and removing it again — with any other operations in between that do not
+name it, all inside the good region — leaves a registry that cannot be told from the one that never saw it:
+same `profiles`, `knownNames`, compiled patterns and `defaultProfiles`, hence same verdicts. -/
+theorem add_remove_interleaved (cfg : Cfg) (r : Reg) (p : Str) (ps : Dict PVal) (ms : Option (Dict Str))
+    (ops : List Op) (hinv : Inv cfg r) (hp : p ∉ r.names) (hno : ∀ op ∈ ops, ¬ op.mentions p)
+    (hg₁ : GoodRun cfg r ([.add p ps ms] ++ ops ++ [.remove (some p)])) (hg₂ : GoodRun cfg r ops) :
+    obs (run cfg r ([.add p ps ms] ++ ops ++ [.remove (some p)])) = obs (run cfg r ops) := by
+  obtain ⟨i1, c1, d1⟩ := run_good cfg r _ hinv hg₁
+  obtain ⟨i2, c2, d2⟩ := run_good cfg r _ hinv hg₂
+  apply obs_eq_of_contents cfg _ _ i1 i2
+  · rw [c1, c2]
+    exact add_remove_contents (contents r) p ps ms ops (by rw [contents_names]; exact hp) hno
+  · rw [d1, d2]; exact add_remove_default r.default p ps ms ops
+
+/-- the plain case: add, then remove -/
+theorem add_remove (cfg : Cfg) (accepts : CVal → Str → Bool) (r : Reg) (p : Str) (ps : Dict PVal)
+    (ms : Option (Dict Str)) (hinv : Inv cfg r) (hp : p ∉ r.names)
+    (hg : GoodRun cfg r [.add p ps ms, .remove (some p)]) (n v : Str) :
+    validate accepts (run cfg r [.add p ps ms, .remove (some p)]) n v = validate accepts r n v ∧
+    (run cfg r [.add p ps ms, .remove (some p)]).known = r.known := by
+  have h := add_remove_interleaved cfg r p ps ms [] hinv hp (by simp) hg trivial
+  refine ⟨validate_obs accepts _ _ h n v, ?_⟩
+  have h' := h
+  simp only [obs, Obs.mk.injEq] at h'
+  exact h'.2.2.1
+
+/-! ## T14.3 valid iff some registered profile that defines the property accepts the value -/
+
+theorem valid_iff_some_profile (cfg : Cfg) (accepts : CVal → Str → Bool) (r : Reg) (hinv : Inv cfg r)
+    (name value : Str) :
+    ∃ b, validate accepts r name value = .ok b ∧
+      (b = true ↔ ∃ p ∈ r.names, ∃ d c, dget r.compiled p = some d ∧ dget d name = some c ∧ accepts c value = true) :=
+  validate_spec cfg accepts r hinv name value
+
+/-! ## T14.4 `defaultProfiles` decides which profile is reported, never whether a value is valid -/
+
+/-- for default profiles that are registered: `validateWithProfile` does not raise, its `valid` is `validate`'s
+answer, and `matching` says exactly whether one of the default profiles accepts -/
+theorem defaults_affect_matching_only (cfg : Cfg) (accepts : CVal → Str → Bool) (r : Reg) (hinv : Inv cfg r)
+    (d : Option (List Str)) (hd : ∀ p ∈ getDefault (setDefault r d), p ∈ r.names) (name value : Str) :
+    ∃ vd, validateWithProfile accepts (setDefault r d) name value none = .ok vd ∧
+      validate accepts r name value = .ok vd.valid ∧
+      (vd.matching = true ↔ ∃ p ∈ getDefault (setDefault r d), AcceptsIn accepts r.compiled name value p) := by
+  obtain ⟨vd, h1, h2, h3⟩ := validateWithProfile_spec cfg accepts (setDefault r d)
+    (Profiles.setDefault_inv cfg r d hinv) hd name value
+  obtain ⟨b, hb1, hb2⟩ := validate_spec cfg accepts r hinv name value
+  refine ⟨vd, h1, ?_, h3⟩
+  rw [hb1]
+  congr 1
+  have : (b = true) ↔ (vd.valid = true) := hb2.trans h2.symm
+  cases b <;> cases hv : vd.valid <;> simp_all
+
+/-- hence two assignments of registered default profiles give the same validity -/
+theorem defaults_same_validity (cfg : Cfg) (accepts : CVal → Str → Bool) (r : Reg) (hinv : Inv cfg r)
+    (d₁ d₂ : Option (List Str)) (h₁ : ∀ p ∈ getDefault (setDefault r d₁), p ∈ r.names)
+    (h₂ : ∀ p ∈ getDefault (setDefault r d₂), p ∈ r.names) (name value : Str) :
+    ∃ v₁ v₂, validateWithProfile accepts (setDefault r d₁) name value none = .ok v₁ ∧
+      validateWithProfile accepts (setDefault r d₂) name value none = .ok v₂ ∧ v₁.valid = v₂.valid := by
+  obtain ⟨v₁, a1, a2, _⟩ := defaults_affect_matching_only cfg accepts r hinv d₁ h₁ name value
+  obtain ⟨v₂, b1, b2, _⟩ := defaults_affect_matching_only cfg accepts r hinv d₂ h₂ name value
+  refine ⟨v₁, v₂, a1, b1, ?_⟩
+  rw [a2] at b2
+  exact Except.ok.inj b2
+
+/-! ## T14.5 removing an unknown profile is rejected and changes nothing -/
+
+theorem remove_unknown_rejected_unchanged (cfg : Cfg) (r : Reg) (p : Str) (hinv : Inv cfg r) (hp : p ∉ r.names) :
+    removeProfile cfg r (some p) = (r, some .noSuchProfile) :=
+  removeProfile_unknown cfg r p hinv hp
+
+/-- for EVERY registry (no invariant needed): a `removeProfile` that answers `NoSuchProfileException` has not
+changed anything, and `removeProfile()` without a name always answers so -/
 theorem remove_rejected_unchanged (cfg : Cfg) (r : Reg) (p : Option Str)
-    (h : (removeProfile cfg r p).2 = some .noSuchProfile) : (removeProfile cfg r p).1 = r := by
-  unfold removeProfile at *
-  cases p with
-  | none => rfl
-  | some p =>
-    simp only at *
-    cases h1 : dget r.raw p with
-    | none => rfl
-    | some e =>
-      simp only [h1] at *
-      cases h2 : dget r.compiled p with
-      | none => rfl
-      | some c =>
-        simp only [h2] at *
-        split at h
-        · split at h
-          · split at h
-            · sorry
-            · simp at h
-          · simp [updateKnown] at h
-        · simp at h
+    (h : (removeProfile cfg r p).2 = some .noSuchProfile) : (removeProfile cfg r p).1 = r :=
+  removeProfile_rejected_unchanged cfg r p h
 
 end CssVerif.C14
